@@ -40,10 +40,19 @@ def sh(cmd, timeout=60, env=None, cwd=None, stdin=None, check=False):
     if env:
         full_env.update({k: str(v) for k, v in env.items()})
     t0 = time.time()
-    p = subprocess.Popen(
-        [str(c) for c in cmd], stdout=subprocess.PIPE, stderr=subprocess.PIPE,
-        stdin=subprocess.PIPE if stdin is not None else subprocess.DEVNULL,
-        env=full_env, cwd=cwd, start_new_session=True)
+    while True:
+        try:
+            p = subprocess.Popen(
+                [str(c) for c in cmd], stdout=subprocess.PIPE, stderr=subprocess.PIPE,
+                stdin=subprocess.PIPE if stdin is not None else subprocess.DEVNULL,
+                env=full_env, cwd=cwd, start_new_session=True)
+            break
+        except OSError as e:
+            # ETXTBSY on a file this harness has just written: a child forked by another harness thread still holds
+            # the inherited write descriptor until it execs (harness-side race; seconds on a loaded machine)
+            if e.errno != 26 or time.time() - t0 > 90:
+                raise
+            time.sleep(0.05)
     timed_out = False
     try:
         out, err = p.communicate(input=stdin, timeout=timeout)
